@@ -292,6 +292,47 @@ def run(ctx):
                    dok and not dbad and len([c for c in dsel if has_vanished(c[1])]) >= 5,
                    "mismatching snapshots: %s" % [dsel[k][4] for k in dbad[:5]])
     ctx.extra["archive_histories"] = {"histories": len(hists), "snapshots": len(dcases), "with_vanished_fields": len(van)}
+    # ------------------------------------------------------------------ edge-of-domain states (N = 0, 1, 2; degenerate values; limits; after errors)
+    import c05_edges
+    est = c05_edges.states(rebound)
+    edge_fails, edge_streams, edge_ran = [], [], 0
+    for lab, mk, ra, cs in est:
+        try:
+            ran, f, b = c05_edges.check_state(rebound, gen, lab, mk, ra, cs)
+        except Exception as e:
+            ran, f, b = True, [{"key": "edge:exception", "state": lab, "detail": repr(e)}], None
+        edge_ran += bool(ran)
+        edge_fails += f
+        if b is not None and len(b) < 30000:
+            edge_streams.append((lab, b))
+        ctx.case(key=("edge", lab))
+    ctx.obligation("oracle:edge-of-domain states ran (>= 90%% of %d)" % len(est), edge_ran * 10 >= len(est) * 9, "%d of %d" % (edge_ran, len(est)))
+    # a sample of the edge streams through the Coq codec / reader / writer (always the N = 0 streams, NaN and integer-limit states)
+    pick = [e for e in edge_streams if e[0].startswith("N=0/") or "nan" in e[0] or e[0].startswith("limit/") or "subnormal" in e[0] or "-0.0" in e[0]]
+    pick = pick[:: max(1, len(pick) // ctx.scale(15, 60))]
+    ejobs = []
+    for c0 in range(0, len(pick), 3):
+        body = ("From Coq Require Import NArith List.\nFrom RV Require Import C05.Model C05.Run.\nImport ListNotations.\n"
+                "Open Scope N_scope.\nDefinition b0 : list N := %s.\n" % coq_list(b0))
+        terms = []
+        for j, (lab, b) in enumerate(pick[c0:c0 + 3]):
+            rb = gen.save_bytes(rebound, gen.load_bytes(rebound, b))
+            body += "Definition s%d : list N := %s.\nDefinition r%d : list N := %s.\n" % (j, coq_list(b), j, coq_list(rb))
+            terms.append("corr b0 s%d r%d" % (j, j))
+        body += "Eval vm_compute in (bad_idx [%s]).\n" % "; ".join(terms)
+        ejobs.append(("c05_edge_%d" % (c0 // 3), body))
+    ebad, eok = [], True
+    for (name, ok, out), c0 in zip(vlib.coq_eval_many(ejobs, timeout=600), range(0, len(pick), 3)):
+        bad = vlib.parse_coq_list_nat(out) if ok else None
+        if bad is None:
+            eok = False
+            ctx.obligation("correspondence:C05:" + name, False, out[-1500:])
+        else:
+            ebad += [c0 + k for k in bad]
+    ctx.traces += len(pick) if eok else 0
+    ctx.obligation("correspondence:C05 Coq codec/reader/writer == library on %d edge-of-domain streams (N = 0, NaN, -0.0, subnormal, integer limits)" % len(pick),
+                   eok and not ebad and len(pick) >= 8, "mismatching: %s" % [pick[k][0] for k in ebad[:6]])
+    ctx.extra["edge_states"] = {"states": len(est), "ran": edge_ran}
     # ------------------------------------------------------------------ library-only oracles
     t0 = time.time()
     fails = []
@@ -351,7 +392,7 @@ def run(ctx):
                                                                  or any(op.get("op") in ("add", "remove") for op in rec.get("after", []))):
             f["key"] = "continue:bs:N_changed_before_save"
     seen = set()
-    for f in fails + mfails + arch_fails:
+    for f in fails + mfails + arch_fails + edge_fails:
         key = f.get("key") or ("%s:%s" % (f.get("stage", "lost"), ",".join(f.get("fields", [])[:3]) or f.get("member", "")))
         if key in seen:
             continue
